@@ -46,8 +46,12 @@ void single_thread() {
         if (closed && !dsim::cell_get(EAGER_EOS)) dsim::fail("C16.close_did_not_wake", "after %s: parked coroutine subscriber did not receive end-of-stream", after);
     };
     for (int step = 0; step < nops; step++) {
-        int op = dsim::choose(9);
-        if ((op == 0 || op == 7) && !closed) { pub->publish(++P); dsim::plan_note(" pub"); }
+        int op = dsim::choose(10);
+        if (op == 9 && !subs.empty()) {        // a subscriber leaves in mid-stream (its registration slot is reused by later subscribers)
+            MSub &m = subs[dsim::choose((unsigned)subs.size())];
+            if (!m.ended) { m.s.reset(); m.ended = true; dsim::plan_note(" leave"); }
+        }
+        else if ((op == 0 || op == 7) && !closed) { pub->publish(++P); dsim::plan_note(" pub"); }
         else if (op == 1 && !closed) { int n = 2 + dsim::choose(3); std::vector<long> b; for (int i = 0; i < n; i++) b.push_back(++P); pub->publish(b.begin(), b.end()); dsim::plan_note(" batch%d", n); }
         else if (op == 2 && subs.size() < 4 && !closed) {
             ST t = (ST)dsim::choose(3); int how = dsim::choose(3);
@@ -83,7 +87,7 @@ void single_thread() {
             }
             m.last_pos = m.s->position(); m.has_read = true; m.r = v;
         }
-        else if (op == 4 && !subs.empty()) { MSub &m = subs[dsim::choose((unsigned)subs.size())]; if (dsim::flip()) pub->kick(m.s.get()); else m.s->kick_me(); m.kicked = true; dsim::plan_note(" kick"); }
+        else if (op == 4 && !subs.empty()) { MSub &m = subs[dsim::choose((unsigned)subs.size())]; if (!m.s) continue; if (dsim::flip()) pub->kick(m.s.get()); else m.s->kick_me(); m.kicked = true; dsim::plan_note(" kick"); }
         else if (op == 5 && !eager_sub && !closed) { eager_sub = std::make_unique<Sub>(*pub); eager_from = P; eager_reader(*eager_sub).detach(); dsim::plan_note(" eager"); }
         else if (op == 6 && dsim::choose(3) == 0 && !closed) { if (dsim::flip()) pub->close(); else pub.reset(); closed = true; dsim::plan_note(" close"); if (!pub) { check_eager("publisher destruction"); break; } }
         check_eager("step");
